@@ -35,7 +35,9 @@ Cycle(g) ==
           /\ nenergies' = nenergies + 1
           /\ UNCHANGED <<converged, done>>
      ELSE /\ converged' = TRUE /\ done' = TRUE
-          /\ UNCHANGED <<ops, nparams, nenergies>>
+          \* a reference state that is converged from the start still yields an energy (the one of the reference state)
+          /\ nenergies' = IF ops = <<>> THEN 1 ELSE nenergies
+          /\ UNCHANGED <<ops, nparams>>
 
 Exhaust == /\ ~done /\ iter = MaxCycles
            /\ done' = TRUE
@@ -45,7 +47,9 @@ Next == (\E g \in GradVecs : Cycle(g)) \/ Exhaust
 
 TypeOK == iter \in 0..MaxCycles /\ Len(ops) <= MaxCycles
 \* one parameter and one energy per appended operator
-Bookkeeping == nparams = Len(ops) /\ nenergies = Len(ops)
+Bookkeeping == nparams = Len(ops) /\ nenergies = (IF done /\ converged /\ ops = <<>> THEN 1 ELSE Len(ops))
+\* a finished run always has an energy to return
+ReturnsEnergy == done => nenergies >= 1
 \* every appended operator was a maximiser of the gradients measured in its cycle, with gradient >= Tol
 ChosenAreMax == \A j \in 1..Len(ops) : ops[j] \in ArgMax(script[j]) /\ script[j][ops[j]] >= Tol
 \* convergence is declared only when every gradient of the last cycle is below the tolerance
@@ -56,6 +60,6 @@ NotConverged == ~converged => Len(script) = Len(ops)
 StopRule == done => (converged \/ iter = MaxCycles)
 OpsGrow == [][Len(ops') >= Len(ops) /\ SubSeq(ops', 1, Len(ops)) = ops]_vars
 
-ExportDone == (Export /\ done) => PrintT(<<"BH", ToJson([script |-> script, ops |-> ops, converged |-> converged, iter |-> iter])>>)
+ExportDone == (Export /\ done) => PrintT(<<"BH", ToJson([script |-> script, ops |-> ops, converged |-> converged, iter |-> iter, nenergies |-> nenergies])>>)
 View == <<iter, ops, converged, done, script>>
 =============================================================================
